@@ -1,5 +1,214 @@
 import AiocoapModel.Basic.Bytes
-/-! Line protocol for C06 (not built yet). -/
+import AiocoapModel.Blockwise.Server
+/-! Line protocol for the block-wise server model (C06).
+
+`C06 R <T> <step>*`  request sequence against up to 4 resources (own state each, one clock)
+   step = `res,dt,asm,rkey,mps,mszx,code,b1,b2,opts,payload,hcode,hopts,hpayload`
+     res     resource index 0..3          dt   ticks since the previous step
+     asm     `needs_blockwise_assembly` 0/1
+     rkey    id of `remote.blockwise_key`, mps/mszx `maximum_payload_size`/`maximum_block_size_exp`
+     b1,b2   value of the Block1/Block2 option as the integer on the wire, `-` if absent
+     opts    `_` or `num=hex;num=hex…` (all other options in option_list order)
+     payload hex, `-` (empty) or `r<len>.<a>.<b>` (byte i = (a + b·i) mod 256)
+     h*      what the handler answers if it is invoked at this step
+   → per step `code|b1|b2|opts|payload|seen`; block options as `num/m/szx`;
+     seen = `-` or `H~code~b1~b2~opts~payload` (the request the handler was invoked with)
+`C06 T <T> <op>*`    TimeoutDict; ops `g:<dt>:<k>` `s:<dt>:<k>:<v>` `d:<dt>:<k>` `m:<dt>:<k>:<v>` `w:<dt>`
+   → per op the value / `K` (KeyError) / `ok`, then `|k=v,…` (sorted by key) and `|t` / `|n`
+     (timer pending or not)
+`C06 K <rkey,code,opts> <rkey,code,opts>`   → `1` iff the two block keys are equal
+-/
+namespace Aiocoap.BwServer
+
+def parseBlk (s : String) : Option (Option Blk) :=
+  if s = "-" then some none else s.toNat?.map (fun v => some (Blk.ofNat v))
+
+def patternBytes (len a b : Nat) : Bytes := (List.range len).map (fun i => (a + b * i) % 256)
+
+def parsePayload (s : String) : Option Bytes :=
+  match s.toList with
+  | 'r' :: rest =>
+    match (String.ofList rest).splitOn "." with
+    | [l, a, b] => do
+      let l ← l.toNat?
+      let a ← a.toNat?
+      let b ← b.toNat?
+      pure (patternBytes l a b)
+    | _ => none
+  | _ => hexToBytes s
+
+def parseOpt (s : String) : Option Opt :=
+  match s.splitOn "=" with
+  | [n, v] => do
+    let n ← n.toNat?
+    let v ← hexToBytes v
+    pure (n, v)
+  | _ => none
+
+def parseOpts (s : String) : Option (List Opt) :=
+  if s = "_" then some [] else (s.splitOn ";").mapM parseOpt
+
+def showBlk : Option Blk → String
+  | none => "-"
+  | some b => s!"{b.num}/{if b.more then 1 else 0}/{b.szx}"
+
+def showOpts (o : List Opt) : String :=
+  if o.isEmpty then "_" else ";".intercalate (o.map fun p => s!"{p.1}={bytesToHex p.2}")
+
+def showSeen : Option Msg → String
+  | none => "-"
+  | some m => s!"H~{m.code}~{showBlk m.block1}~{showBlk m.block2}~{showOpts m.opts}~{bytesToHex m.payload}"
+
+def showOut (o : StepOut) : String :=
+  s!"{o.resp.code}|{showBlk o.resp.block1}|{showBlk o.resp.block2}|{showOpts o.resp.opts}|" ++
+  s!"{bytesToHex o.resp.payload}|{showSeen o.seen}"
+
+structure DStep where
+  res : Nat
+  dt : Nat
+  inp : Nat → In     -- given the absolute time
+
+def parseBool (s : String) : Option Bool :=
+  if s = "1" then some true else if s = "0" then some false else none
+
+def parseStep (s : String) : Option DStep :=
+  match s.splitOn "," with
+  | [res, dt, asm, rkey, mps, mszx, code, b1, b2, opts, payload, hcode, hopts, hpayload] => do
+    let res ← res.toNat?
+    let dt ← dt.toNat?
+    let asm ← parseBool asm
+    let rkey ← rkey.toNat?
+    let mps ← mps.toNat?
+    let mszx ← mszx.toNat?
+    let code ← code.toNat?
+    let b1 ← parseBlk b1
+    let b2 ← parseBlk b2
+    let opts ← parseOpts opts
+    let payload ← parsePayload payload
+    let hcode ← hcode.toNat?
+    let hopts ← parseOpts hopts
+    let hpayload ← parsePayload hpayload
+    let req : Msg := { remote := { key := rkey, maxPayload := mps, maxSzx := mszx }, code := code,
+                       opts := opts, block1 := b1, block2 := b2, payload := payload }
+    let resp : Resp := { code := hcode, opts := hopts, block1 := none, block2 := none,
+                         payload := hpayload }
+    pure { res := res, dt := dt,
+           inp := fun now => { now := now, assemble := asm, req := req, render := fun _ => resp } }
+  | _ => none
+
+/-- inputs the model does not claim: resource index ≥ 4, exponent of the remote > 7, a request
+code that is not a request, a handler answering with a request code or with a block option
+number among its plain options, plain options 23/27 in the request -/
+def stepInModel (d : DStep) : Bool :=
+  let i := d.inp 0
+  d.res < 4 && i.req.remote.maxSzx ≤ 7 && isRequestCode i.req.code &&
+  !isRequestCode (i.render i.req).code &&
+  i.req.opts.all (fun o => o.1 != 23 && o.1 != 27) &&
+  (i.render i.req).opts.all (fun o => o.1 != 23 && o.1 != 27)
+
+def runSteps (T : Nat) : List RState → Nat → List DStep → List String
+  | _, _, [] => []
+  | sts, now, d :: rest =>
+    let now' := now + d.dt
+    match sts[d.res]? with
+    | none => ["bad-res"]
+    | some st =>
+      let r := step T st (d.inp now')
+      showOut r.2 :: runSteps T (sts.set d.res r.1) now' rest
+
+-- TimeoutDict -------------------------------------------------------------------------------
+
+def showItems (l : List (Nat × Nat)) : String :=
+  ",".intercalate ((l.mergeSort (fun a b => a.1 ≤ b.1)).map fun p => s!"{p.1}={p.2}")
+
+def tdOps (T : Nat) : TD Nat Nat → Nat → List String → Option (TD Nat Nat × List String)
+  | td, _, [] => some (td, [])
+  | td, now, op :: ops =>
+    match op.splitOn ":" with
+    | ["g", dt, k] => do
+      let dt ← dt.toNat?
+      let k ← k.toNat?
+      let now := now + dt
+      let td := td.advance T now
+      match td.get T now k with
+      | some (v, td') => do
+        let (f, out) ← tdOps T td' now ops
+        pure (f, toString v :: out)
+      | none => do
+        let (f, out) ← tdOps T td now ops
+        pure (f, "K" :: out)
+    | ["s", dt, k, v] => do
+      let dt ← dt.toNat?
+      let k ← k.toNat?
+      let v ← v.toNat?
+      let now := now + dt
+      let (f, out) ← tdOps T ((td.advance T now).set T now k v) now ops
+      pure (f, "ok" :: out)
+    | ["d", dt, k] => do
+      let dt ← dt.toNat?
+      let k ← k.toNat?
+      let now := now + dt
+      let td := td.advance T now
+      match td.del k with
+      | some td' => do
+        let (f, out) ← tdOps T td' now ops
+        pure (f, "ok" :: out)
+      | none => do
+        let (f, out) ← tdOps T td now ops
+        pure (f, "K" :: out)
+    | ["m", dt, k, v] => do
+      let dt ← dt.toNat?
+      let k ← k.toNat?
+      let v ← v.toNat?
+      let now := now + dt
+      let (f, out) ← tdOps T ((td.advance T now).mutate k v) now ops
+      pure (f, "ok" :: out)
+    | ["w", dt] => do
+      let dt ← dt.toNat?
+      let now := now + dt
+      let (f, out) ← tdOps T (td.advance T now) now ops
+      pure (f, "ok" :: out)
+    | _ => none
+
+def parseKeyMsg (s : String) : Option Msg :=
+  match s.splitOn "," with
+  | [rkey, code, opts] => do
+    let rkey ← rkey.toNat?
+    let code ← code.toNat?
+    let opts ← parseOpts opts
+    pure { remote := { key := rkey, maxPayload := 0, maxSzx := 0 }, code := code, opts := opts,
+           block1 := none, block2 := none, payload := [] }
+  | _ => none
+
+end Aiocoap.BwServer
+
 namespace Aiocoap
-def handleC06 (_args : List String) : String := "out-of-model"
+open BwServer
+
+def handleC06 (args : List String) : String :=
+  match args with
+  | "R" :: t :: steps =>
+    match t.toNat?, steps.mapM parseStep with
+    | some T, some ds =>
+      if !ds.all stepInModel then "out-of-model" else
+      " ".intercalate (runSteps T (List.replicate 4 RState.init) 0 ds)
+    | _, _ => "bad-op"
+  | "T" :: t :: ops =>
+    match t.toNat? with
+    | some T =>
+      match tdOps T TD.empty 0 ops with
+      | some (td, out) =>
+        " ".intercalate out ++ " |" ++ showItems td.items ++
+          (if td.deadline.isSome then " |t" else " |n")
+      | none => "bad-op"
+    | none => "bad-op"
+  | ["K", a, b] =>
+    match parseKeyMsg a, parseKeyMsg b with
+    | some a, some b =>
+      if a.opts.any (fun o => o.1 == 23 || o.1 == 27) || b.opts.any (fun o => o.1 == 23 || o.1 == 27)
+      then "out-of-model"
+      else if blockKey a = blockKey b then "1" else "0"
+    | _, _ => "bad-op"
+  | _ => "bad-op"
+
 end Aiocoap
